@@ -1,13 +1,215 @@
 import BumpVerif.Proofs.VecCore
-/-! # C13 (Vec part) — under construction -/
+import BumpVerif.Proofs.VecFilter
+import BumpVerif.Proofs.VecDrain
+import BumpVerif.Proofs.VecMore
+/-!
+# C13 (Vec part) — `bumpalo::collections::Vec` refines the `List` specification
+
+Abstraction: `abs v = (v.slots.take v.len).filterMap id` (`Bump.V.abs`); `RepB c v xs` says that
+`v` represents `xs` (`abs v = xs`, every slot below `len` initialised, `len ≤ capacity()`, the
+buffer has `cap` slots, machine bounds on `cap`); `RepB c v xs ↔` well-formed `∧ abs v = xs`
+(`C13_rep_abs`).  For each method: the result represents `specM xs`, the returned value is the
+spec's, and it panics exactly when the spec's precondition fails (index out of range, or the
+growth is refused: capacity overflow / the arena refuses).  All statements hold for every
+`Cfg` (sized and zero-sized elements, both `overflowChecks` settings, both debug settings).
+
+Full list of the property and its status here:
+* proved below: push, pop, insert, remove, swap_remove, truncate, clear, append, split_off, drain (all
+  range forms: acceptance condition, profile independence, contents, returned items from both ends),
+  retain, drain_filter (also dropped early), into_iter (front and back), reserve / reserve_exact /
+  try_reserve(_exact) (`cap ≥ len + n`, growth `max(2·cap, len + n)`), `len ≤ cap` as part of `RepB`
+  in every conclusion;
+* NOT proved here (covered by the correspondence run — model = crate on every call — and the
+  `std::vec::Vec` side-by-side oracle only): resize, extend, extend_from_slice(_copy),
+  extend_from_slices_copy, splice, dedup(_by/_by_key), shrink_to_fit, clone, into_boxed_slice,
+  from_iter_in/collect_in, vec!, io::Write.
+-/
 namespace Bump.V.C13
 open Bump Bump.V
 
-theorem reserve_honoured {c : Cfg} {v v' : VS} {xs : List Elem} {n : Nat} (hc : CfgOK c) (h : RepB c v xs)
-    (hr : rawReserve c v v.len n = some v') : RepB c v' xs ∧ v.len + n ≤ capOf c v' :=
-  let ⟨a, b, _⟩ := rawReserve_some hc h hr
-  ⟨a, b⟩
+/-- the representation relation determines the abstraction -/
+theorem C13_rep_abs {c : Cfg} {v : VS} {xs : List Elem} (h : RepB c v xs) : abs v = xs ∧ v.len ≤ capOf c v :=
+  ⟨h.toRep.abs_eq, h.lenCap⟩
+
+/-- `reserve(n)` / `try_reserve(n)` (amortized or exact) that returns: contents unchanged,
+`capacity() ≥ len + n`, and the new `cap` is `len + n` (exact) or `max(2·cap, len + n)` -/
+theorem C13_reserve {c : Cfg} {v v' : VS} {xs : List Elem} {n : Nat} {exact : Bool} (hc : CfgOK c) (h : RepB c v xs)
+    (hr : reserveOp c v n exact = .ok v') :
+    RepB c v' xs ∧ v.len + n ≤ capOf c v' ∧
+      (v' = v ∨ (c.esz ≠ 0 ∧ capOf c v < v.len + n ∧ v'.cap = (if exact then v.len + n else max (v.cap * 2) (v.len + n)))) :=
+  reserveGen_ok hc h (Nat.le_refl _) h.lenCap hr
+
+/-- `push` appends, or panics because the growth was refused (then nothing changes and the
+value is dropped by the unwinding) -/
+theorem C13_push {c : Cfg} {v : VS} {xs : List Elem} (hc : CfgOK c) (h : RepB c v xs) (e : Elem) (w : W) :
+    (∃ v', push c v e w = (v', w, some ()) ∧ RepB c v' (xs ++ [e])) ∨
+    (push c v e w = (v, (dropElem c w e).1, none) ∧ v.len = capOf c v ∧ rawReserve c v v.len 1 = none) :=
+  push_spec hc h e w
+
+/-- `pop` returns the last element (or `None` on an empty vector) and never panics -/
+theorem C13_pop {c : Cfg} {v : VS} {xs : List Elem} (h : RepB c v xs) (w : W) :
+    (xs = [] ∧ pop v w = (v, w, none)) ∨
+    (∃ (hne : xs ≠ []) (v' : VS), pop v w = (v', w.moved (xs.getLast hne), some (xs.getLast hne)) ∧ RepB c v' xs.dropLast) :=
+  pop_spec h w
+
+/-- `insert(i, e)`: panics iff `i > len` (or the growth is refused); else `e` lands at `i`
+(`xs.take i ++ e :: xs.drop i = xs.insertIdx i e`) -/
+theorem C13_insert {c : Cfg} {v : VS} {xs : List Elem} (hc : CfgOK c) (h : RepB c v xs) (i : Nat) (e : Elem) (w : W) :
+    (i ≤ xs.length ∧ ∃ v', insert c v i e w = (v', w, some ()) ∧ RepB c v' (xs.take i ++ e :: xs.drop i)) ∨
+    (insert c v i e w = (v, (dropElem c w e).1, none) ∧
+      (xs.length < i ∨ (v.len = capOf c v ∧ rawReserve c v v.len 1 = none))) :=
+  insert_spec hc h i e w
+
+/-- `remove(i)`: panics iff `i ≥ len` (nothing changes); else returns `xs[i]`, leaves `xs.eraseIdx i` -/
+theorem C13_remove {c : Cfg} {v : VS} {xs : List Elem} (h : RepB c v xs) (i : Nat) (w : W) :
+    (∃ (hi : i < xs.length) (v' : VS), remove c v i w = (v', w.moved xs[i], some xs[i]) ∧ RepB c v' (xs.eraseIdx i)) ∨
+    (xs.length ≤ i ∧ remove c v i w = (v, w, none)) :=
+  remove_spec h i w
+
+/-- `swap_remove(i)`: panics iff `i ≥ len`; else returns `xs[i]` and the last element takes its place -/
+theorem C13_swap_remove {c : Cfg} {v : VS} {xs : List Elem} (h : RepB c v xs) (i : Nat) (w : W) :
+    (∃ (hi : i < xs.length) (v' : VS), swapRemove c v i w = (v', w.moved xs[i], some xs[i]) ∧
+        RepB c v' ((xs.set i (xs.getLast (by intro h0; simp [h0] at hi))).dropLast)) ∨
+    (xs.length ≤ i ∧ swapRemove c v i w = (v, w, none)) :=
+  swapRemove_spec h i w
+
+/-- `truncate(n)` with destructors that do not panic: keeps `xs.take n`, drops the rest (from
+the back), never panics -/
+theorem C13_truncate {c : Cfg} {v : VS} {xs : List Elem} (h : RepB c v xs) (n : Nat) (w : W) (hnp : c.dropPanicAt = none) :
+    ∃ (v' : VS) (w' : W), truncate c v n w = (v', w', some ()) ∧ RepB c v' (xs.take n) ∧
+      w'.evs = w.evs ++ dropEvs c (xs.drop n).reverse ∧ w'.bad = w.bad := by
+  obtain ⟨m, v', w', r, hp, _, _, hr, hev, hb, _, hm, hnone⟩ := truncate_spec h n w
+  have hr1 := hnone hnp
+  have hm1 := hm hr1
+  subst hr1
+  refine ⟨v', w', hp, ?_, ?_, hb⟩
+  · have : xs.take m = xs.take n := by rw [hm1]; simp [List.take_eq_take_iff]
+    rw [← this]; exact hr
+  · have : xs.drop m = xs.drop n := by
+      rw [hm1]
+      by_cases hle : n ≤ xs.length
+      · rw [Nat.min_eq_left hle]
+      · rw [Nat.min_eq_right (by omega), List.drop_of_length_le (Nat.le_refl _), List.drop_of_length_le (by omega)]
+    rw [← this]; exact hev
+
+/-- `clear()` = `truncate(0)` -/
+theorem C13_clear {c : Cfg} {v : VS} {xs : List Elem} (h : RepB c v xs) (w : W) (hnp : c.dropPanicAt = none) :
+    ∃ (v' : VS) (w' : W), clear c v w = (v', w', some ()) ∧ RepB c v' [] ∧ w'.evs = w.evs ++ dropEvs c xs.reverse := by
+  obtain ⟨v', w', hp, hr, hev, _⟩ := C13_truncate h 0 w hnp
+  exact ⟨v', w', hp, by simpa using hr, by simpa using hev⟩
+
+/-- `drain_filter(f)` for a predicate that is a function of the element (and destructors that
+do not panic): exactly the elements satisfying `f` are removed, in order, also when the
+iterator is dropped after `take` calls of `next()` — the first `take` of them are returned, the
+others dropped by its destructor; the rest stays in order.  Never panics. -/
+theorem C13_drain_filter {c : Cfg} {v : VS} {xs : List Elem} (h : RepB c v xs) (f : Elem → Bool) (take : Nat) (w : W)
+    (hnp : c.dropPanicAt = none) :
+    ∃ v' w', drainFilterOp c v (fun _ e => some (f e)) take false w = (v', w', some ((xs.filter f).take take)) ∧
+      RepB c v' (xs.filter (fun e => !f e)) ∧
+      w'.evs = w.evs ++ movedEvs ((xs.filter f).take take) ++ dropEvs c ((xs.filter f).drop take) ∧ w'.bad = w.bad :=
+  drainFilterOp_pure h f take w hnp
+
+/-- `retain(f)` keeps exactly `xs.filter f`, drops the others in order, never panics -/
+theorem C13_retain {c : Cfg} {v : VS} {xs : List Elem} (h : RepB c v xs) (f : Elem → Bool) (w : W)
+    (hnp : c.dropPanicAt = none) :
+    ∃ v' w', retain c v (fun _ e => some (f e)) w = (v', w', some ()) ∧ RepB c v' (xs.filter f) ∧
+      w'.evs = w.evs ++ dropEvs c (xs.filter (fun e => !f e)) ∧ w'.bad = w.bad :=
+  retain_pure h f w hnp
+
+/-- `drain(range)` panics — before touching anything — exactly when the range is not
+acceptable: a bound of `usize::MAX` that would have to be incremented, `start > end`, or
+`end > len` (`DrainOK` spells this out) -/
+theorem C13_drain_panics {c : Cfg} {v : VS} {xs : List Elem} (h : RepB c v xs) {s e : Bd}
+    (hbad : ¬ ∃ st en, DrainOK c xs.length s e st en) (take back : Nat) (forget : Bool) (w : W) :
+    drainOp c v s e take back forget w = (v, w, none) := by
+  apply drainOp_panics
+  rw [h.len]; exact hbad
+
+/-- the acceptable ranges are the same in every build profile: `Included(usize::MAX)` as end
+(or `Excluded(usize::MAX)` as start) is rejected with and without overflow checks (this was F7
+on the pinned tree: without overflow checks the bound wrapped to 0; fixed in /repo, 894a021) -/
+theorem C13_drain_range_all_profiles (c c' : Cfg) (len : Nat) (s e : Bd) (st en : Nat) :
+    DrainOK c len s e st en ↔ DrainOK c' len s e st en := by
+  have h1 : rangeStart c s = rangeStart c' s := by cases s <;> rfl
+  have h2 : rangeEnd c len e = rangeEnd c' len e := by cases e <;> rfl
+  simp [DrainOK, h1, h2]
+
+theorem C13_drain_max_rejected (c : Cfg) (len st en : Nat) (s : Bd) : ¬ DrainOK c len s (.inc USIZE_MAX) st en := by
+  intro h; have := h.2.1; simp [rangeEnd, succU, USIZE_MAX, USIZE] at this
+
+/-- `drain(st..en)` on an acceptable range, iterator used `take` times from the front and
+`back` times from the back and then dropped (destructors do not panic): those items are
+returned in that order, the rest of the range is dropped, the vector keeps
+`xs.take st ++ xs.drop en` -/
+theorem C13_drain {c : Cfg} {v : VS} {xs : List Elem} (h : RepB c v xs) {s e : Bd} {st en : Nat}
+    (hok : DrainOK c xs.length s e st en) (take back : Nat) (w : W) (hnp : c.dropPanicAt = none) :
+    let k1 := min take (en - st)
+    let k2 := min back (en - (st + k1))
+    let front := (xs.drop st).take k1
+    let backs := ((xs.take en).drop (en - k2)).reverse
+    let left := (xs.drop (st + k1)).take (en - k2 - (st + k1))
+    ∃ v' w', drainOp c v s e take back false w = (v', w', some (front ++ backs)) ∧ RepB c v' (xs.take st ++ xs.drop en) ∧
+      w'.evs = w.evs ++ movedEvs (front ++ backs) ++ dropEvs c left ∧ w'.bad = w.bad := by
+  intro k1 k2 front backs left
+  obtain ⟨v', w', r, kd, fin, hrun, _, hev, hb, _, _, _, hfin, _, hnp', hrep⟩ := drainOp_spec h hok take back false w
+  have hf := hnp' hnp rfl
+  subst hf
+  obtain ⟨hkd, hr⟩ := hfin rfl
+  refine ⟨v', w', by rw [hrun, hr], by simpa using hrep, ?_, hb⟩
+  rw [hev, hkd, List.take_length]
+
+/-- `into_iter()` used `take` times from the front and `back` times from the back, then
+dropped: those items in that order, the others dropped in order -/
+theorem C13_into_iter {c : Cfg} {v : VS} {xs : List Elem} (h : RepB c v xs) (take back : Nat) (w : W) (hnp : c.dropPanicAt = none) :
+    ∃ w', intoIterOp c v take back false w =
+        (w', some (xs.take (min take xs.length) ++ (xs.drop (xs.length - min back (xs.length - min take xs.length))).reverse)) ∧
+      w'.evs = w.evs ++ movedEvs (xs.take (min take xs.length) ++ (xs.drop (xs.length - min back (xs.length - min take xs.length))).reverse) ++
+        dropEvs c ((xs.drop (min take xs.length)).take (xs.length - min back (xs.length - min take xs.length) - min take xs.length)) ∧
+      w'.bad = w.bad := by
+  obtain ⟨w', r, kd, hrun, _, hev, hb, hr, _, hnp'⟩ := intoIterOp_spec h take back false w
+  obtain ⟨hne, hkd⟩ := hnp' hnp rfl
+  cases r with
+  | none => exact absurd rfl hne
+  | some m =>
+    have := hr m rfl
+    subst this
+    exact ⟨w', hrun, by rw [hev, hkd, List.take_length], hb⟩
+
+/-- `append(&mut other)`: `other`'s elements move to the end, `other` becomes empty; panics
+(nothing changes) only when the growth is refused -/
+theorem C13_append {c : Cfg} {a b : VS} {xs ys : List Elem} (hc : CfgOK c) (ha : RepB c a xs) (hb : RepB c b ys) (w : W) :
+    (∃ a' b', append c a b w = (a', b', w, some ()) ∧ RepB c a' (xs ++ ys) ∧ RepB c b' []) ∨
+    (append c a b w = (a, b, w, none) ∧ rawReserve c a a.len b.len = none) := append_spec hc ha hb w
+
+/-- `split_off(at)`: panics iff `at > len` (or the new buffer is refused); else `xs.take at`
+stays and the returned vector holds `xs.drop at` -/
+theorem C13_split_off {c : Cfg} {v : VS} {xs : List Elem} (hc : CfgOK c) (h : RepB c v xs) (at_ : Nat) (w : W) :
+    (at_ ≤ xs.length ∧ ∃ v' o, splitOff c v at_ w = (v', some o, w) ∧ RepB c v' (xs.take at_) ∧ RepB c o (xs.drop at_)) ∨
+    (splitOff c v at_ w = (v, none, w) ∧ (xs.length < at_ ∨ withCapacity c (xs.length - at_) = none)) :=
+  splitOff_spec hc h at_ w
+
+/-- non-vacuity: a concrete vector with a stale slot after `len` satisfies the hypotheses -/
+example : RepB {} ⟨[some ⟨1, 10⟩, some ⟨2, 20⟩, some ⟨2, 20⟩, none], 2, 4⟩ [⟨1, 10⟩, ⟨2, 20⟩] :=
+  ⟨⟨⟨[some ⟨2, 20⟩, none], rfl⟩, rfl, fun _ => rfl, by decide⟩, by decide, fun _ => by decide⟩
+example : CfgOK {} := by unfold CfgOK; decide
 
 end Bump.V.C13
 
-#print axioms Bump.V.C13.reserve_honoured
+#print axioms Bump.V.C13.C13_rep_abs
+#print axioms Bump.V.C13.C13_reserve
+#print axioms Bump.V.C13.C13_push
+#print axioms Bump.V.C13.C13_pop
+#print axioms Bump.V.C13.C13_insert
+#print axioms Bump.V.C13.C13_remove
+#print axioms Bump.V.C13.C13_swap_remove
+#print axioms Bump.V.C13.C13_truncate
+#print axioms Bump.V.C13.C13_clear
+#print axioms Bump.V.C13.C13_drain_filter
+#print axioms Bump.V.C13.C13_retain
+#print axioms Bump.V.C13.C13_drain_panics
+#print axioms Bump.V.C13.C13_drain_range_all_profiles
+#print axioms Bump.V.C13.C13_drain_max_rejected
+#print axioms Bump.V.C13.C13_drain
+#print axioms Bump.V.C13.C13_into_iter
+#print axioms Bump.V.C13.C13_append
+#print axioms Bump.V.C13.C13_split_off
